@@ -26,9 +26,9 @@ func childInit(emptyRuntime bool) []byte {
 }
 
 var plainBodies = []string{"store", "log", "revert-data", "return-ctx", "selfdestruct-fresh", "selfdestruct-self",
-	"reenter", "loop", "create", "create-empty-code", "create2", "invalid", "returndatacopy-oob"}
+	"reenter", "loop", "create", "create-empty-code", "create2", "invalid", "returndatacopy-oob", "returndatasize-at-entry"}
 
-var fwdBodies = []string{"fwd-call", "fwd-call-value", "fwd-callcode", "fwd-delegatecall", "fwd-staticcall", "fwd-call-then-store", "fwd-call-copy-all"}
+var fwdBodies = []string{"fwd-call", "fwd-call-value", "fwd-callcode", "fwd-delegatecall", "fwd-staticcall", "fwd-call-then-store", "fwd-call-copy-all", "fwd-call-after-identity"}
 
 func isFwd(b string) bool { return len(b) > 4 && b[:4] == "fwd-" }
 
@@ -80,6 +80,11 @@ func bodyCode(name string, next address) []byte {
 	case "invalid":
 		a.pushU(0xcc).pushU(1).op(opSSTORE)
 		a.op(opINVALID)
+	case "returndatasize-at-entry":
+		// a fresh frame starts with an empty return-data buffer, whatever its caller called before
+		a.op(opRETURNDATASIZE).op(opDUP1).pushU(3).op(opSSTORE)
+		a.pushU(0).op(opMSTORE)
+		a.pushU(0x20).pushU(0).op(opRETURN)
 	case "returndatacopy-oob":
 		a.pushU(0x20).pushU(0).pushU(0).op(opRETURNDATACOPY)
 		a.op(opSTOP)
@@ -97,6 +102,8 @@ func bodyCode(name string, next address) []byte {
 		return forwarder(opCALL, 0, next, "store-after")
 	case "fwd-call-copy-all":
 		return forwarder(opCALL, 0, next, "copy-all")
+	case "fwd-call-after-identity":
+		return forwarder(opCALL, 0, next, "after-identity")
 	default:
 		panic("harness: unknown body " + name)
 	}
@@ -290,7 +297,7 @@ func family3Case(s f3Spec, mode string) *txCase {
 		if isFwd(s.BodyB) {
 			leaf, depth = s.BodyC, 3
 			via = map[string]string{"fwd-call": "CALL", "fwd-call-value": "CALL", "fwd-callcode": "CALLCODE", "fwd-delegatecall": "DELEGATECALL",
-				"fwd-staticcall": "STATICCALL", "fwd-call-then-store": "CALL", "fwd-call-copy-all": "CALL"}[s.BodyB]
+				"fwd-staticcall": "STATICCALL", "fwd-call-then-store": "CALL", "fwd-call-copy-all": "CALL", "fwd-call-after-identity": "CALL"}[s.BodyB]
 			if s.BodyB == "fwd-staticcall" {
 				static = true
 			}
